@@ -4589,14 +4589,16 @@ class ParameterizedMetaclass(type):
             if owning_class != mcs:
                 parameter = copy.copy(parameter)
                 parameter.owner = mcs
+                inherited = parameter.default
                 type.__setattr__(mcs,attribute_name,parameter)
                 _clear_params_cache(mcs)
                 try:
                     parameter.__set__(None,value)
                 except BaseException:
-                    if parameter.default is not value:
-                        # The value was rejected: do not leave the copy behind,
-                        # the class still inherits the Parameter of its parent
+                    if parameter.default is inherited:
+                        # Nothing was installed (the value was rejected): do not
+                        # leave the copy behind, the class still inherits the
+                        # Parameter of its parent
                         type.__delattr__(mcs,attribute_name)
                         _clear_params_cache(mcs)
                     raise
